@@ -1164,66 +1164,130 @@ namespace rvutils::pbo
         // }
 
         // Opens the provided PBO file
+        //
+        // Remarks:
+        // - The archive is only read. Every string, header and data block is checked against the size of the
+        //   file before it is used; an archive that is cut short or whose entries reach beyond the end of the
+        //   file is refused (good() == false) instead of being read past its end.
         void open(const std::filesystem::path &path)
         {
-            std::fstream file(path, std::ios_base::binary | std::ios_base::in | std::ios_base::out);
-            if (!file.is_open() && !file.good())
+            m_good = false;
+            m_headers.clear();
+            m_attributes.clear();
+            std::error_code ec;
+            if (!std::filesystem::is_regular_file(path, ec))
             {
-                m_good = false;
+                return;
+            }
+            const auto file_size = static_cast<std::streamoff>(std::filesystem::file_size(path, ec));
+            if (ec)
+            {
+                return;
+            }
+            std::fstream file(path, std::ios_base::binary | std::ios_base::in);
+            if (!file.is_open() || !file.good())
+            {
                 return;
             }
             m_path = path;
-#if _DEBUG
-            auto DBG_POS = file.tellg();
-#endif
+
+            // Tells whether `count` zero terminated strings, followed by `extra` further bytes, lie
+            // completely inside of the file, starting at the current position (which is kept).
+            auto strings_available = [&file, file_size](size_t count, std::streamoff extra) -> bool
+            {
+                auto pos = file.tellg();
+                std::streamoff consumed = 0;
+                char c;
+                bool complete = true;
+                for (size_t i = 0; i < count && complete; i++)
+                {
+                    complete = false;
+                    while (file.get(c))
+                    {
+                        consumed++;
+                        if (c == '\0')
+                        {
+                            complete = true;
+                            break;
+                        }
+                    }
+                }
+                file.clear();
+                file.seekg(pos);
+                return complete && static_cast<std::streamoff>(pos) + consumed + extra <= file_size;
+            };
 
             // Read in version header
+            if (!strings_available(1, sizeof(header::bin)))
+            {
+                return;
+            }
             std::optional<header> opt_header = read_header(file);
             if (!opt_header.has_value())
             {
-                m_good = false;
                 return;
             }
-#if _DEBUG
-            DBG_POS = file.tellg();
-#endif
 
-
-            // Read in attributes until we hit a "no value"
-            std::optional<attribute_> opt_attribute;
-            while ((opt_attribute = read_attribute(file)).has_value())
+            // Read in attributes until we hit the empty string that ends them
+            while (true)
             {
+                auto next = file.peek();
+                if (next == std::fstream::traits_type::eof())
+                { // file ends inside of the attributes
+                    m_attributes.clear();
+                    return;
+                }
+                if (next == '\0')
+                {
+                    break;
+                }
+                if (!strings_available(2, 0))
+                {
+                    m_attributes.clear();
+                    return;
+                }
+                auto opt_attribute = read_attribute(file);
+                if (!opt_attribute.has_value())
+                {
+                    m_attributes.clear();
+                    return;
+                }
                 m_attributes.push_back(*opt_attribute);
             }
             attribute_ attribute_empty = {};
             attribute_empty.block.start = file.tellg();
             attribute_empty.block.end = attribute_empty.block.start + std::streamoff(1);
             m_attributes.push_back(attribute_empty);
-#if _DEBUG
-            DBG_POS = file.tellg();
-#endif
 
             // Confirm we reached attributes end
             if (file.get() != '\0')
             { // we failed :(
-                m_good = false;
+                m_attributes.clear();
                 return;
             }
-#if _DEBUG
-            DBG_POS = file.tellg();
-#endif
 
-
-            // Read in headers until we hit a header with "no value"
-            while ((opt_header = read_header(file)).has_value() && !opt_header->name.empty())
+            // Read in headers until we hit the header with the empty name that ends them
+            while (true)
             {
+                if (!strings_available(1, sizeof(header::bin)))
+                { // file ends inside of the header table
+                    m_headers.clear();
+                    m_attributes.clear();
+                    return;
+                }
+                opt_header = read_header(file);
+                if (!opt_header.has_value())
+                {
+                    m_headers.clear();
+                    m_attributes.clear();
+                    return;
+                }
                 m_headers.push_back(*opt_header);
+                if (opt_header->name.empty())
+                {
+                    break;
+                }
             }
-            m_headers.push_back(*opt_header);
-#if _DEBUG
-            DBG_POS = file.tellg();
-#endif
-
 
             auto offset = file.tellg();
             // Add data-sections to headers
@@ -1232,6 +1296,12 @@ namespace rvutils::pbo
                 it.block_data.start = offset;
                 offset += it.size;
                 it.block_data.end = offset;
+            }
+            if (static_cast<std::streamoff>(offset) > file_size)
+            { // The entries claim more data than the file holds
+                m_headers.clear();
+                m_attributes.clear();
+                return;
             }
 
             // All fine here, end processing.
